@@ -20,7 +20,7 @@ def _load(pid):
 
 
 QUICK = {
-    "C01": ["k_date_new", "k_iso_new", "k_date_nth_weekday_of_month", "k_date_tomorrow", "k_date_yesterday", "k_itry_new", "k_epoch_checked_add"],
+    "C01": ["k_date_new", "k_iso_new", "k_date_nth_weekday_of_month", "k_date_tomorrow", "k_date_yesterday", "k_itry_new", "k_epoch_checked_add", "k_ifrom_doy", "k_ifrom_doy_no_leap", "k_inth_weekday_of_month"],
     "C02": ["k_ts_new", "k_ts_from_second", "k_ts_from_millisecond", "k_ts_from_microsecond", "k_ts_from_nanosecond", "k_off_to_timestamp", "k_idt_to_ts_checked"],
     "C08": ["k_time_checked_add_span", "k_time_checked_add_sdur", "k_time_saturating_add_span"],
     "C10": ["k_ts_round", "k_sd_round", "k_time_round", "k_offset_round", "k_time_round_inc"],
